@@ -344,7 +344,7 @@ var slPoints = []int{skiplist.VpInsBeforePublish, skiplist.VpInsBeforeLink, skip
 
 type slMicro struct {
 	Name  string
-	Pre   bool     // key 30 present initially (height given by PreLevel)
+	Pre   bool // key 30 present initially (height given by PreLevel)
 	PreLv int
 	Progs []string // I<level> insert 30 with that level, D delete 30, L lookup 30, N insert neighbour 29, M delete neighbour 20
 }
